@@ -45,8 +45,21 @@ SPRAYS = [
     # raw HTML blocks without any disallowed tag (lines ending in '<', split tags): the disallow filter must leave them alone
     "<div>\nif (a <\n b)\n</div>", "<pre>\nx <\ny\n</pre>", "<!-- a <\n b -->", "<div> <", "<p\nclass='c'>", "<table><tr><\ntd>x</td></tr></table>",
 ]
-FM_VALID = ["---\ntitle: doc\n---\n", "---\na: 1\nb: two\n---\n", "---\nlist:\n  - x\n  - y\n---\n", "---  \nk: v\n---  \n"]
-FM_INVALID = ["---\njust some text\n---\n", "---\nk: v\n", "---\n\nk: v\n---\n", "---\nk: [unclosed\n---\n", "----\nk: v\n----\n", " ---\nk: v\n ---\n"]
+FM_VALID = ["---\ntitle: doc\n---\n", "---\na: 1\nb: two\n---\n", "---\nlist:\n  - x\n  - y\n---\n", "---  \nk: v\n---  \n",
+            # mappings whose values are falsy are as valid as any other
+            "---\ndraft: false\n---\n", "---\ncount: 0\nname: ''\n---\n", "---\nk: v # comment\n---\n"]
+# (4) a switched-off extension must not even look at its own settings: (extension, leftover settings)
+LEFTOVER = [
+    ("dr", {"change_tag_names": "custom,script"}), ("dr", {"change_tag_names": "+custom,-script"}), ("dr", {"change_tag_names": 1}), ("dr", {"change_tag_names": ""}),
+    ("fm", {"allow_blank_lines": True}), ("fm", {"allow_blank_lines": "yes"}), ("fm", {"allow_blank_lines": 3}),
+    ("st", {"unknown_setting": 1}), ("ea", {"unknown_setting": "x"}), ("tl", {"unknown_setting": True}), ("pr", {"unknown_setting": 0}),
+]
+CF_DOCS = ["---\ntitle: x\n---\n\n<script>x</script>\n\n~~s~~ www.example.com\n- [ ] task\n", "<title>t</title>\n\ntext   \n", "---\n\nk: v\n---\n#  h\n", "plain text\n"]
+N_CF = len(LEFTOVER) * 2 * len(CF_DOCS)
+FM_INVALID = ["---\njust some text\n---\n", "---\nk: v\n", "---\n\nk: v\n---\n", "---\nk: [unclosed\n---\n", "----\nk: v\n----\n", " ---\nk: v\n ---\n",
+              # valid YAML that is not a mapping of fields is not front matter (an empty mapping is left out: the
+              # documentation asks for at least one field, the code accepts it)
+              "---\n42\n---\n", "---\ntrue\n---\n", "---\n- a\n- b\n---\n", "---\n[]\n---\n", "---\n3.5\n---\n"]
 
 
 def universe_hash():
@@ -62,7 +75,7 @@ def plan(tier, seed, complete=False):
         r = R(mix("C20", seed))
         idx = sorted(set(r.sample(N_Z1, 1200)) | {N_Z1 + k for k in r.sample(N_Z3, 2000)} | {N_Z1 + N_Z3 + k for k in r.sample(N_SPRAY + N_Z2 + N_Z5, 6000)})
     return {
-        "items": [f"X:{i}" for i in idx],
+        "items": [f"X:{i}" for i in idx] + [f"CF:{i}" for i in range(N_CF)],
         "zones": {"corpus": {"universe": N_Z1}, "calm trees": {"universe": N_Z3}, "extension-syntax spray": {"universe": N_SPRAY}, "run": {"cases": len(idx)}},
         "exhaustive": False,
         "rule": "documents (raw corpus, calm trees, calm trees sprayed with every extension's syntax, front-matter blocks valid/invalid prepended by index) x "
@@ -71,10 +84,14 @@ def plan(tier, seed, complete=False):
 
 
 def witness_item(k):
+    if str(k["witness"].get("case", "")).startswith("CF:"):
+        return {"key": "W:" + k["id"], "cf": int(k["witness"]["case"].split(":")[1])}
     return {"key": "W:" + k["id"], "doc": k["witness"]["doc"], "fm": k["witness"].get("fm")}
 
 
 def replay_item(rp):
+    if str(rp["case"]).startswith("CF:"):
+        return {"key": str(rp["case"]), "cf": int(str(rp["case"]).split(":")[1])}
     return {"key": str(rp["case"]), "doc": rp["detail"]["doc"], "fm": rp["detail"].get("fm")}
 
 
@@ -132,6 +149,9 @@ def run_items(items, job):
     T_all = pm.make_tokenizer(pm.ext_config(set(pm.EXTENSIONS)))
     R = PL.Result()
     for it in items:
+        if (isinstance(it, str) and it.startswith("CF:")) or (isinstance(it, dict) and it.get("cf") is not None):
+            _run_leftover(pm, R, it if isinstance(it, str) else it["key"], int(it.split(":")[1]) if isinstance(it, str) else int(it["cf"]))
+            continue
         if isinstance(it, dict):
             key, doc, fm = it["key"], it["doc"], it.get("fm")
             spray_zone = len(doc) < 200
@@ -223,3 +243,60 @@ def run_items(items, job):
         elif len(R.samples) < 2 and (trig or fm):
             R.samples.append({"case": key, "doc": doc[:160], "front_matter": fm, "triggers_present": sorted(trig)})
     return R.as_dict()
+
+
+def _run_leftover(pm, R, key, ci):
+    """(4): every extension off, one of them with settings left over (valid, invalid, wrongly typed), lenient and strict."""
+    from pymarkdown.api import PyMarkdownApi, PyMarkdownApiException
+
+    li, rest = ci % len(LEFTOVER), ci // len(LEFTOVER)
+    strict, di = rest % 2, rest // 2
+    ext, settings = LEFTOVER[li]
+    doc = CF_DOCS[di % len(CF_DOCS)]
+    R.evals += 1
+    name = pm.EXTENSIONS[ext]
+    v = set()
+    detail = {"case": f"CF:{ci}", "doc": doc, "extension": name, "leftover_settings": settings, "strict": bool(strict)}
+    T_off = pm.make_tokenizer(pm.ext_config(set()))
+    base_s, base_h, _ = _ser(pm, T_off, doc)
+    cfg = pm.ext_config(set())
+    cfg["extensions"][name].update(settings)
+    R.count("leftover_setting_cases")
+    try:
+        T = pm.make_tokenizer(cfg)
+        s2, h2, _ = _ser(pm, T, doc)
+        R.count("inertness_comparisons")
+        if (s2, h2) != (base_s, base_h):
+            v.add("disabled-extension-with-settings-changes-parse:" + ext)
+    except Exception as e:  # noqa: BLE001
+        v.add("disabled-extension-reads-its-settings:parser:" + ext + ":" + type(e).__name__)
+        detail["parser_error"] = str(e)[:200]
+
+    def api(with_settings):
+        a = PyMarkdownApi().log_critical_and_above()
+        for k2, n2 in pm.EXTENSIONS.items():
+            a = a.set_boolean_property(f"extensions.{n2}.enabled", False)
+        if strict:
+            a = a.enable_strict_configuration()
+        if with_settings:
+            for sk, sv in settings.items():
+                prop = f"extensions.{name}.{sk}"
+                a = a.set_boolean_property(prop, sv) if isinstance(sv, bool) else a.set_integer_property(prop, sv) if isinstance(sv, int) else a.set_string_property(prop, sv)
+        return a
+
+    def scan(a):
+        try:
+            r = a.scan_string(doc)
+            return sorted((f.line_number, f.column_number, f.rule_id) for f in r.scan_failures)
+        except PyMarkdownApiException as e:
+            return "EXC:" + str(e)[:120]
+
+    want, got = scan(api(False)), scan(api(True))
+    R.count("documents")
+    if want != got:
+        v.add("disabled-extension-reads-its-settings:scan:" + ext + (":strict" if strict else ""))
+        detail["scan_without_settings"] = want if isinstance(want, str) else want[:8]
+        detail["scan_with_settings"] = got if isinstance(got, str) else got[:8]
+    R.distinct.add(PL.mix("CF", ci) & 0xFFFFFFFFFFFF)
+    if v:
+        R.viol.append([key, ";".join(sorted(v)), detail])
